@@ -127,7 +127,9 @@ func compare(r *tsrun.Runner, fb map[rune]string) error {
 			wantW := v.Width
 			if int(c.Width) != wantW && !(c.Base == 0 && wantW == 1) {
 				// a substitute for a wide rune ("? " or a two-column fallback) is two narrow cells
-				if wantW == 2 && (e.kind == "question" || e.kind == "fallback") && c.Width == 1 {
+				if wantW == 2 && e.kind == "fallback" && len(fb[v.R]) < 2 && c.Width == 1 {
+					// narrower substitute than the documentation asks for: second column unspecified
+				} else if wantW == 2 && (e.kind == "question" || e.kind == "fallback") && c.Width == 1 {
 					n := t.At(x+1, y)
 					if n.Width != 1 && n.Base != 0 {
 						return fmt.Errorf("cell (%d,%d): substitute for wide U+%04X does not fill two columns", x, y, v.R)
@@ -355,7 +357,10 @@ func genFb(t *rapid.T) FbCase {
 			r := rapid.SampledFrom(fbRunes).Draw(t, "fr")
 			s := rapid.SampledFrom([]string{"x", "#", "*", "E", "o"}).Draw(t, "fs")
 			if shadow.RuneWidth(r) == 2 {
-				s = rapid.SampledFrom([]string{"[]", "##", "JP"}).Draw(t, "fs2")
+				// "Z": a substitute narrower than the rune. The documentation asks for equal width, so what
+				// the rune's own two columns then show is not compared - but every other cell must still
+				// land in its own column
+				s = rapid.SampledFrom([]string{"[]", "##", "JP", "Z"}).Draw(t, "fs2")
 			}
 			c.Ops = append(c.Ops, FbOp{Kind: "register", R: r, S: s})
 		case 6:
@@ -579,12 +584,13 @@ func localeSweep(t *testing.T) {
 
 func TestProp(t *testing.T) {
 	defer pbt.Recover(t)
-	pbt.Describe("repertoire: sweep of BMP runes (see exhaustive_subspaces) drawn on 64x16 pages by a real terminfo screen whose locale selects the charset; the reference terminal decodes the written bytes in the same charset (DEC special graphics via ESC ( 0 or SO/SI, SCO alternate font, the entry's own acsc pairs) and every cell must show: the rune itself if an independently instantiated encoder can encode it, else the ACS glyph the description provides for that rune, else the registered fallback, else '?', in exactly the cell's width; the stream must stay decodable (no raw UTF-8, no 0x1A); CanDisplay must agree for printable runes. locale: which charset LC_ALL / LC_CTYPE / LANG select (POSIX precedence, empty = unset, C/POSIX = US-ASCII, no codeset = UTF-8) checked through CharacterSet() and the bytes written; fallbacks: rapid histories of RegisterRuneFallback/UnregisterRuneFallback (1- and 2-column ASCII substitutes), draws and Sync. Non-trivial = charset other than UTF-8 (fallbacks: a rune not representable in the charset drawn after a registration change).",
+	pbt.Describe("repertoire: sweep of BMP runes (see exhaustive_subspaces) drawn on 64x16 pages by a real terminfo screen whose locale selects the charset; the reference terminal decodes the written bytes in the same charset (DEC special graphics via ESC ( 0 or SO/SI, SCO alternate font, the entry's own acsc pairs) and every cell must show: the rune itself if an independently instantiated encoder can encode it, else the ACS glyph the description provides for that rune, else the registered fallback, else '?', in exactly the cell's width; the stream must stay decodable (no raw UTF-8, no 0x1A); CanDisplay must agree for printable runes. locale: which charset LC_ALL / LC_CTYPE / LANG select (POSIX precedence, empty = unset, C/POSIX = US-ASCII, no codeset = UTF-8) checked through CharacterSet() and the bytes written; codeset-names: every documented codeset spelling against x/text code pages instantiated by the harness itself (the registry's name table is under test there); fallbacks: rapid histories of RegisterRuneFallback/UnregisterRuneFallback (1- and 2-column ASCII substitutes), draws and Sync. Non-trivial = charset other than UTF-8 (fallbacks: a rune not representable in the charset drawn after a registration change).",
 		"an independently instantiated x/text encoder of the charset decides representability; the glyph shown is the decoding of those bytes",
 		"the rune a terminfo ACS name stands for is tcell's documented Rune* constant; which bytes denote it on the entry comes from my own parse of the entry's acsc",
-		"fallback strings match the rune's width (1 column for narrow, 2 for wide runes); an unencodable combining rune is elided; CanDisplay of non-printing runes is unspecified",
+		"fallback strings match the rune's width as documented (1 column for narrow, 2 for wide runes); with a 1-column substitute for a wide rune only the other cells are compared (each must land in its own column); an unencodable combining rune is elided; CanDisplay of non-printing runes is unspecified",
 		"after a registration change only full repaints (Sync) are compared: cells keep the substitute in force when they were painted")
 	sweep(t)
 	localeSweep(t)
+	aliasSweep(t)
 	pbt.Check(t, "fallbacks", pbt.Pick(4000, 40000), pbt.Spec[FbCase]{Gen: genFb, Prop: fbProp, NonTrivial: fbNonTrivial})
 }
